@@ -7,6 +7,6 @@ WT=${VH_WT:-/tmp/wt/mine}
 git -C "$WT" checkout -q -- . && git -C "$WT" reset -q --hard $(git -C /repo rev-parse HEAD)
 P=$(realpath "$1"); shift
 git -C "$WT" apply "$P" || { echo "patch does not apply"; exit 2; }
-cd /verif
+cd ${VH_VERIF:-/verif}
 for id in "$@"; do VH_OUT=${VH_OUT:-/tmp/vh_out} PYTHONPATH="$WT" ./check "$id" 2>&1 | grep -v "^KNOWN" | cut -c1-220 | tail -6; done
 git -C "$WT" checkout -q -- .
